@@ -319,3 +319,13 @@ package arraylist
 //@   ensures [C03] permutation: (forall k :: 0 <= k && k < len(Seq(list)) ==> 0 <= sortperm[k] && sortperm[k] < len(Seq(list)) && sortinv[sortperm[k]] == k && 0 <= sortinv[k] && sortinv[k] < len(Seq(list)) && sortperm[sortinv[k]] == k)
 //@     && (forall k :: 0 <= k && k < len(Seq(list)) ==> Seq(list)[k] == old(Seq(list))[sortperm[k]])
 //@   ensures [C16] Owned(list)
+
+//@ -- String: starts with the container's name; reads only (C15, C18)
+//@ func List.String
+//@   requires Inv(list)
+//@   modifies nothing
+//@   ensures [C15 C17 C18] hasPrefix(result, "ArrayList")
+//@   loop 1:
+//@     invariant 0 - 1 <= rangeindex && rangeindex < len(list.elements) && (len(list.elements) == 0 ==> rangeindex == 0 - 1)
+//@     invariant isnil(values) || fresh(arr(values))
+//@     decreases len(list.elements) - rangeindex
